@@ -10,6 +10,8 @@ import (
 	"net/http"
 	"os"
 	"path/filepath"
+	"regexp"
+	"sort"
 	"strings"
 	"testing"
 	"testing/synctest"
@@ -53,6 +55,8 @@ func (e event) String() string {
 	switch e.kind {
 	case "req", "resp":
 		return fmt.Sprintf("%s(%d)", e.kind, e.txn+1)
+	case "respOld":
+		return "resp(oldest of the transactions in flight)"
 	case "tick":
 		return fmt.Sprintf("tick(%v)", e.d)
 	}
@@ -84,6 +88,47 @@ type model struct {
 	slots   [2]slot
 	reloads int
 	files   int // number of the last policies file written (loaded or refused)
+	// many-transactions start state: before the history, `prefill` other transactions (o0, o1,
+	// ...) were first seen (all at the start instant, under v1); respOld answers the oldest
+	// one not answered yet
+	prefill int
+	oldNext int
+	t0      time.Time
+}
+
+// alphabet of the many-transactions start state (indices into alpha plus respOld)
+var alphaMany = []event{{kind: "respOld"}, {kind: "req", txn: 0}, {kind: "resp", txn: 0}, {kind: "reload"},
+	{kind: "tick", d: time.Second}, {kind: "tick", d: 11 * time.Second}, {kind: "tick", d: 29 * time.Second}, {kind: "tick", d: 31 * time.Second}}
+
+const manyTransactions = 9000
+
+func newModelMany() *model {
+	m := newModel()
+	m.prefill, m.t0 = manyTransactions, time.Now()
+	for i := 0; i < m.prefill; i++ {
+		if got := marker(m.acc.GetTxnPoliciesData(config.TxnID(fmt.Sprintf("o%d", i)))); got != "v1" {
+			panic("prefill: transaction got " + got)
+		}
+	}
+	return m
+}
+
+var oldPinRe = regexp.MustCompile(`o\d+->(-?\d+),?`)
+
+// collapseOld replaces the pins of the pre-filled transactions by their number per version
+// (they are interchangeable: same first look-up instant, same version).
+func collapseOld(key string) string {
+	count := map[string]int{}
+	out := oldPinRe.ReplaceAllStringFunc(key, func(x string) string {
+		count[oldPinRe.FindStringSubmatch(x)[1]]++
+		return ""
+	})
+	var cs []string
+	for k, n := range count {
+		cs = append(cs, fmt.Sprintf("old->%sx%d", k, n))
+	}
+	sort.Strings(cs)
+	return out + "|" + strings.Join(cs, ";")
 }
 
 func policiesYAML(k int) string {
@@ -135,7 +180,21 @@ func (m *model) close() { os.RemoveAll(m.dir) }
 
 func (m *model) Apply(ei int) string {
 	e := alpha[ei]
+	if m.prefill > 0 {
+		e = alphaMany[ei]
+	}
 	switch e.kind {
+	case "respOld":
+		if m.oldNext >= m.prefill {
+			return ""
+		}
+		id := fmt.Sprintf("o%d", m.oldNext)
+		m.oldNext++
+		got := marker(m.acc.GetTxnPoliciesData(config.TxnID(id)))
+		if age := time.Since(m.t0); age <= retention && got != "v1" {
+			return fmt.Sprintf("VERSION-CHANGED:many-transactions the response of %s (one of %d transactions in flight, %v after its request, %d reloads so far) was processed with %s, its request saw v1", id, m.prefill, age, m.reloads, got)
+		}
+		return ""
 	case "tick":
 		time.Sleep(e.d)
 		synctest.Wait()
@@ -239,7 +298,16 @@ func (m *model) Key() string {
 			sl = append(sl, "idle")
 		}
 	}
-	return config.VerifAccessorDump(m.acc, now) + "|" + strings.Join(sl, ",")
+	key := config.VerifAccessorDump(m.acc, now) + "|" + strings.Join(sl, ",")
+	if m.prefill > 0 {
+		age := now.Sub(m.t0)
+		a := age.String()
+		if age > retention+6*time.Second {
+			a = "expired"
+		}
+		key = collapseOld(key) + fmt.Sprintf("|old-answered=%d age=%s", m.oldNext, a)
+	}
+	return key
 }
 
 func TestCheck(t *testing.T) {
@@ -263,6 +331,21 @@ func TestCheck(t *testing.T) {
 		if replayVacuum(t, rp.Model, rp.Path) {
 			return
 		}
+		if rp.Model == "accessor-many-transactions" {
+			synctest.Test(t, func(t *testing.T) {
+				m := newModelMany()
+				defer m.close()
+				for i, e := range rp.Path {
+					fail := m.Apply(e)
+					fmt.Printf("%2d %-12s -> %q\n", i, alphaMany[e], fail)
+					if fail != "" {
+						t.Fail()
+					}
+				}
+				drain(m)
+			})
+			return
+		}
 		synctest.Test(t, func(t *testing.T) {
 			m := newModel()
 			defer m.close()
@@ -277,7 +360,7 @@ func TestCheck(t *testing.T) {
 		})
 		return
 	}
-	r.Rule = fmt.Sprintf("explicit-state BFS to depth %d over histories of {req(i), resp(i) for two transaction slots, reload (new policies file + ReloadFromFile), the same reload refused by the proxy's admin API, revert, revert-diagnosis-free, tick(1s|5s|24s|29s|31s)} on the real TxnPoliciesAccessor with its real vacuum goroutines in virtual time; plus every history to depth 6 (7 thorough) of the real routing message handlers over {request, 503 response of three transactions incl. a retry attempt whose id differs from its sequence id, reload with/without the retry remedy}; plus the MapVacuum component by itself (every history of {register a new key, 1 s step} to depth 12 for four ttl/tick settings: no key removed before its time-to-live); plus schedules of request-vs-reload, reload-vs-reload(+pinned transaction), response-vs-vacuum; distinct = state keys (accessor dump + slot ages)", depth)
+	r.Rule = fmt.Sprintf("explicit-state BFS to depth %d over histories of {req(i), resp(i) for two transaction slots, reload (new policies file + ReloadFromFile), the same reload refused by the proxy's admin API, revert, revert-diagnosis-free, tick(1s|5s|24s|29s|31s)} on the real TxnPoliciesAccessor with its real vacuum goroutines in virtual time; plus the same accessor from a start state with 9000 transactions in flight (depth 4, 5 thorough, over {response of the oldest one, req(1), resp(1), reload, tick(1s|11s|29s|31s)}); plus every history to depth 6 (7 thorough) of the real routing message handlers over {request, 503 response of three transactions incl. a retry attempt whose id differs from its sequence id, reload with/without the retry remedy}; plus the MapVacuum component by itself (every history of {register a new key, 1 s step} to depth 12 for four ttl/tick settings: no key removed before its time-to-live); plus schedules of request-vs-reload, reload-vs-reload(+pinned transaction), response-vs-vacuum; distinct = state keys (accessor dump + slot ages)", depth)
 	r.Assume("HAProxy admin API replaced by an in-process RoundTripper (200, or 500 during a refused reload)", "retention asserted for responses up to exactly 30 s after the first look-up")
 	if r.Parallel(t, 16) {
 		r.Finish(t)
@@ -309,6 +392,23 @@ func TestCheck(t *testing.T) {
 			r.Sample(map[string]any{"first_event": alpha[first].String(), "states": st, "transitions": tr,
 				"example": "req(1) reload tick(24s) reload tick(5s) resp(1)"})
 		}
+	}
+	// the same accessor from a start state with many transactions in flight
+	for first := range alphaMany {
+		if !r.Mine(len(alpha) + first) {
+			continue
+		}
+		st, _ := mc.BFS(r, mc.BFSOpts{Name: "accessor-many-transactions", NEvents: len(alphaMany), MaxDepth: mc.Pick(r, 4, 5), Prefix: []int{first}, CheckPrefix: true,
+			EvName: func(e int) string { return alphaMany[e].String() },
+			Run: func(body func(mc.Model)) {
+				synctest.Test(t, func(t *testing.T) {
+					m := newModelMany()
+					defer m.close()
+					body(m)
+					drain(m)
+				})
+			}})
+		r.NonTrivial(fmt.Sprintf("many-transactions first=%s states=%d", alphaMany[first], st))
 	}
 	r.Add("traces_validated_against_impl", r.Counters["transitions"])
 	phase("bfs done")
